@@ -753,8 +753,8 @@ class C15(fw.Property):
                 other = self.norm(res[name]["trace"])
                 if upto_close(other) != got:
                     return ("C15:chunking-dependent", "outputs up to the first close differ between the given chunking and '%s'" % name)
-                if other != full and not any(e[0] in ("req", "resp", "w", "abort") for e in full[len(got):] + other[len(got):]):
-                    return ("C15:chunking-dependent", "outputs after the first close differ between the given chunking and '%s'" % name)
+                if other != full:
+                    return ("C15:chunking-dependent", "complete outputs differ between the given chunking and '%s'" % name)
                 if not res[name]["final"]["closed"] and not res["given"]["final"]["closed"] and res[name]["final"] != res["given"]["final"]:
                     return ("C15:chunking-dependent-state", "spool/settings differ between the given chunking and '%s'" % name)
         # nothing happens after the endpoint's own Abort
